@@ -53,12 +53,17 @@ def showOut : Out → String
   | .err e => "err " ++ e.name
   | .panic => "panic"
 
-/-- runs of consecutive documents that tie under the sort -/
+/-- the two documents hold `Compare`-equal values under every sort field (whatever the directions) -/
+def keyTie (spec : PList) (d e : PList) : Bool :=
+  spec.toList.all fun p => cmp (mget d p.1) (mget e p.1) = 0
+
+/-- runs of consecutive documents with equal sort keys (the harness groups the implementation's answer the same way;
+with a direction that decodes to 0 the runs are those of the scan order) -/
 def classes (spec : PList) : List PList → List (List PList)
   | [] => []
   | d :: ds =>
     match classes spec ds with
-    | (e :: c) :: cs => if sortCmp d e spec = 0 then (d :: e :: c) :: cs else [d] :: (e :: c) :: cs
+    | (e :: c) :: cs => if keyTie spec d e then (d :: e :: c) :: cs else [d] :: (e :: c) :: cs
     | cs => [d] :: cs
 
 def insById (d : PList) : List PList → List PList
